@@ -407,3 +407,47 @@ func VH11d_answer() {
 	sock.Close()
 	verif.Quiesce()
 }
+
+// VH11e_shared_publication: one publication is handed to two SUB contexts
+// (and, for BUS/STAR-style fan-out on the sending side, to two connections);
+// both receive it at the same time, from two goroutines; each owner then
+// scribbles on and frees its message at once. Every receiver must have got
+// the published bytes, under every schedule with one preemption.
+func VH11e_shared_publication() {
+	lab := "C11/shared-publication"
+	sock := vp.New("sub")
+	side := vt.Listen(sock, "a")
+	pub := side.Peer("pub")
+	c1, e1 := sock.OpenContext()
+	c2, e2 := sock.OpenContext()
+	verif.Assert(e1 == nil && e2 == nil, lab+"/open-contexts")
+	for _, c := range []mangos.Context{c1, c2} {
+		verif.Assert(c.SetOption(mangos.OptionSubscribe, []byte{}) == nil, lab+"/subscribe")
+	}
+	body := []byte{'p', verif.Byte("payload"), 'q'}
+	pub.Deliver(body)
+	verif.Quiesce()
+	ok := [2]bool{}
+	got := [2]bool{}
+	recv := func(i int, c mangos.Context) {
+		m, err := c.RecvMsg()
+		if err != nil {
+			return
+		}
+		got[i] = true
+		ok[i] = len(m.Body) == 3 && m.Body[0] == 'p' && m.Body[1] == body[1] && m.Body[2] == 'q'
+		// the message is this receiver's own now: it may do with it what it likes
+		for k := range m.Body {
+			m.Body[k] = 0xee
+		}
+		m.Free()
+	}
+	g1 := verif.Go("R1", func() { recv(0, c1) })
+	g2 := verif.Go("R2", func() { recv(1, c2) })
+	verif.Quiesce()
+	verif.Assert(g1.Done() && g2.Done() && got[0] && got[1], lab+"/a-subscriber-missed-the-publication")
+	verif.Assert(ok[0] && ok[1], lab+"/a-receiver-saw-bytes-another-receiver-wrote")
+	verif.Reach("ran")
+	sock.Close()
+	verif.Quiesce()
+}
